@@ -60,6 +60,10 @@ class Run(object):
       result = 'EXC:PhaseBoom'
     elif r == 'raise_f':
       result = 'EXC:FailureExc'
+    elif r == 'raise_fsub':
+      result = 'EXC:FailureSub'
+    elif r == 'raise_fbase':
+      result = 'EXC:FailureBase'
     elif r in ('bad', 'bad0'):
       result = 'EXC:InvalidPhaseResultError'
     elif r == 'sysexit':
@@ -69,7 +73,7 @@ class Run(object):
     else:
       result = RET_RESULT[r]
     meas_outcome = {'none': None, 'pass': 'PASS', 'marg': 'PASS', 'fail': 'FAIL', 'unset': 'UNSET',
-                    'dimunset': 'UNSET', 'dimset': 'PASS'}[m]
+                    'dimunset': 'UNSET', 'dimset': 'PASS', 'dimbad': 'FAIL', 'dimgood': 'PASS'}[m]
     # a body that raised/hung after setting the measurement keeps the value it set
     hit_limit = result == 'REPEAT' and last_repeat
     terminal = result.startswith('EXC:') or result in ('TIMEOUT', 'STOP', 'KILLED')
@@ -288,7 +292,7 @@ class Run(object):
     ft = self.first_terminal
     if ft is not None:
       if ft[0] == 'exc':
-        if ft[1] == 'FailureExc' and self.s.get('failure_exceptions'):
+        if ft[1] in ('FailureExc', 'FailureSub') and self.s.get('failure_exceptions'):
           return 'FAIL'
         return 'ERROR'
       if ft[0] == 'timeout':
